@@ -91,12 +91,14 @@ fn small_alphabet(table: &Table, f: &FieldDef) -> Vec<Val> {
         Enc::Txt => match &f.len {
             Len::Fixed(n) => vec![Val::Text(s(*n)), Val::Text(s(*n).to_uppercase())],
             Len::LL => vec![Val::Text(String::new()), Val::Text(s(1)), Val::Text(s(99))],
-            _ => vec![Val::Text(String::new()), Val::Text(s(3)), Val::Text(s(128)), Val::Text(s(300))],
+            Len::LLL => vec![Val::Text(String::new()), Val::Text(s(3)), Val::Text(s(128)), Val::Text(s(999))],
+            _ => vec![Val::Text(String::new()), Val::Text(s(3)), Val::Text(s(128)), Val::Text(s(300)), Val::Text(s(4096)), Val::Text(s(40_000))],
         },
         Enc::HexS => match &f.len {
             Len::Fixed(n) => vec![Val::Hex("0123abcd".chars().cycle().take(n * 2).collect()), Val::Hex("ff".repeat(*n))],
             Len::LL => vec![Val::Hex(String::new()), Val::Hex("00".into()), Val::Hex("a5".repeat(99))],
-            _ => vec![Val::Hex(String::new()), Val::Hex("0123456789abcdef".into()), Val::Hex("5a".repeat(130))],
+            Len::LLL => vec![Val::Hex(String::new()), Val::Hex("0123456789abcdef".into()), Val::Hex("5a".repeat(999))],
+            _ => vec![Val::Hex(String::new()), Val::Hex("0123456789abcdef".into()), Val::Hex("5a".repeat(130)), Val::Hex("c3".repeat(5000))],
         },
         Enc::Nested(n) => {
             let ty = table.get(n);
